@@ -2,7 +2,7 @@
    relocations and image, success condition); moved here from Props/C20.lean so that the grouping theorems
    (Lemmas/LinkGroup, LinkImage, LinkSource) can build on them.  Namespace unchanged. -/
 import Lc3V.Lemmas.SortedMap
-import Lc3V.Props.C21
+import Lc3V.Lemmas.C21Core
 import Lc3V.Lemmas.LinkPatch
 import Lc3V.Lemmas.LinkRel
 import Lc3V.Lemmas.LinkOk
